@@ -86,18 +86,35 @@ def configs(tier):
                     out.append(dict(kind=kind, mode='ctor', a=a, c=c, s=s))
                     if kind == 'Input':
                         out.append(dict(kind=kind, mode='restore', a=a, c=c, s=s))
+                    out.append(dict(kind=kind, mode='outerr', a=a, c=c, s=s))
     return out
 
 
 def vkw(cfg):
     kw = {}
     if ALLOWED[cfg['a']] is not None:
-        kw['allowed'] = ALLOWED[cfg['a']]
+        # the caller's own container: a private copy, modified after the block was created
+        # (see spoil(); the block's 'allowed' values are those given at construction)
+        kw['allowed'] = copy.copy(ALLOWED[cfg['a']])
     if CHECK[cfg['c']] is not None:
         kw['check'] = CHECK[cfg['c']]
     if SCHEMA[cfg['s']] is not None:
         kw['schema'] = SCHEMA[cfg['s']]
     return kw
+
+
+def spoil(kw):
+    """The application goes on using (clearing, refilling) the container it passed as 'allowed'."""
+    cont = kw.get('allowed')
+    if isinstance(cont, set):
+        cont.clear()
+        cont.update(('x', 3, None))
+    elif isinstance(cont, list):
+        cont.clear()
+        cont.extend(('x', 3, None))
+    elif isinstance(cont, dict):
+        cont.clear()
+        cont.update({'x': 0, 3: 0, None: 0})
 
 
 def first_accepted(cfg):
@@ -133,11 +150,13 @@ def run_history(cfg, hist, init):
     a, c, s = cfg['a'], cfg['c'], cfg['s']
     with Sim() as sim:
         try:
+            kw = vkw(cfg)
             if cfg['kind'] == 'Input':
-                blk = edzed.Input('inp', initdef=init[0], **vkw(cfg))
+                blk = edzed.Input('inp', initdef=init[0], **kw)
             else:
                 blk = edzed.InputExp('inp', duration=10, expired=copy.copy(expired_value(cfg)[0]),
-                                     initdef=init[0], **vkw(cfg))
+                                     initdef=init[0], **kw)
+            spoil(kw)
         except Exception as err:    # pylint: disable=broad-except
             info['viol'].append(('ctor-refused-valid-initdef',
                                  f"initdef {init[0]!r} is acceptable for [{a},{c},{s}] but the "
@@ -146,7 +165,16 @@ def run_history(cfg, hist, init):
 
         async def driver():
             task = asyncio.create_task(sim.circuit.run_forever())
-            await sim.circuit.wait_init()
+            try:
+                await sim.circuit.wait_init()
+            except edzed.EdzedInvalidState as err:
+                info['viol'].append(('start-refused-valid-initdef',
+                                     f"initdef {init[0]!r} is acceptable for [{a},{c},{s}] but the "
+                                     f"start failed: {err}"))
+                info['dead'] = True
+                info['steps'].append(('start', repr(err), None))
+                del task
+                return
             cur = init[1]
             if not same(blk.output, cur):
                 info['viol'].append(('initial-output', f"{blk.output!r} != schema(initdef) {cur!r}"))
@@ -204,6 +232,69 @@ def run_history(cfg, hist, init):
     return (None if info.get('dead') else info['canon']), info
 
 
+def run_outerr(cfg, acc):
+    """
+    The delivery of the output event of an accepted put fails (a filter raises). Whatever becomes
+    of that error (C09: it stops the simulation), a put that *returns False* must have left
+    output and state unchanged, and a value that fails validation is still simply refused.
+    """
+    a, c, s = cfg['a'], cfg['c'], cfg['s']
+    init = first_accepted(cfg)
+    if init is None:
+        return
+    for exc in (ValueError, TypeError, KeyError):
+        for v0 in D:
+            ok, out = accept(a, c, s, v0)
+            if ok and same(out, init[1]):
+                continue        # no output change, no output event
+            acc.execs += 1
+            armed = []
+            res = {}
+
+            def boom(data, _exc=exc, _armed=armed):
+                if _armed:
+                    raise _exc('event filter failed')
+                return True
+            with Sim() as sim:
+                kw = vkw(cfg)
+                sink = edzed.Input('sink', initdef=None)
+                ev = edzed.Event(sink, 'put', efilter=boom)
+                if cfg['kind'] == 'Input':
+                    blk = edzed.Input('inp', initdef=init[0], on_output=ev, **kw)
+                else:
+                    blk = edzed.InputExp('inp', duration=10, expired=copy.copy(expired_value(cfg)[0]),
+                                         initdef=init[0], on_output=ev, **kw)
+
+                async def driver():
+                    task = asyncio.create_task(sim.circuit.run_forever())
+                    await sim.circuit.wait_init()
+                    armed.append(1)
+                    res['before'] = (blk.output, copy.deepcopy(blk.get_state()))
+                    try:
+                        res['ret'] = edzed.ExtEvent(blk, 'put').send(copy.copy(v0))
+                    except Exception as err:    # pylint: disable=broad-except
+                        res['ret'] = err
+                    res['after'] = (blk.output, copy.deepcopy(blk.get_state()))
+                    await asyncio.sleep(0)
+                    res['dead'] = not sim.circuit.is_ready()
+                    await stop(sim.circuit)
+                    del task
+                sim.run(driver())
+            acc.outcome(('outerr', cfg['kind'], a, c, s, exc.__name__, repr(v0), repr(res.get('ret')), res.get('dead')))
+            acc.state(('outerr', cfg['kind'], ok, type(res.get('ret')).__name__, res.get('dead')))
+            tag = f"{cfg['kind']} [{a},{c},{s}] whose output event fails with {exc.__name__}: put({v0!r})"
+            if res['ret'] is False and (not same(res['after'][0], res['before'][0])
+                                        or res['after'][1] != res['before'][1]):
+                acc.violation(f"C17:false-but-changed:{cfg['kind']}",
+                              f"{tag} returned False, but output/state went from {res['before']!r} "
+                              f"to {res['after']!r}", cfg=cfg)
+            if not ok:
+                if res['ret'] is not False or res['dead']:
+                    acc.violation(f"C17:rejected-but-not-false:{cfg['kind']}",
+                                  f"{tag} (not acceptable) -> {res['ret']!r}, simulation stopped: {res['dead']}",
+                                  cfg=cfg)
+
+
 def run_config(cfg):
     acc = Acc()
     a, c, s = cfg['a'], cfg['c'], cfg['s']
@@ -258,6 +349,8 @@ def run_config(cfg):
                         f"C17:ctor-{'refused-valid' if refused else 'accepted-invalid'}-{role}:{cfg['kind']}",
                         f"{cfg['kind']}({role}={v!r}) [{a},{c},{s}]: refused={refused}, accept={ok}",
                         cfg=cfg)
+    elif cfg['mode'] == 'outerr':
+        run_outerr(cfg, acc)
     else:
         # restored persistent value passes through the same validation
         good = first_accepted(cfg)
@@ -272,6 +365,7 @@ def run_config(cfg):
                     kw['initdef'] = good[0]
                 try:
                     blk = edzed.Input('inp', persistent=True, **kw)
+                    spoil(kw)
                 except Exception as err:    # pylint: disable=broad-except
                     acc.violation('C17:ctor-refused-valid-initdef:Input',
                                   f"initdef {kw.get('initdef')!r} is acceptable for [{a},{c},{s}] but "
